@@ -660,7 +660,9 @@ def ruleDateTimeDateTime(
 
 @rule(predicate("isTOD"), _regex_to_join, predicate("isTOD"))
 def ruleTODTOD(ts: datetime, t1: Time, _: RegexMatch, t2: Time) -> Interval:
-    if (t1.hour > t2.hour) and (t1.hour <= 12 and t2.hour <= 12):
+    if (t1.hour > t2.hour) and (t1.hour <= 12 and t2.hour <= 12) and (
+        (t2.hour + 12, t2.minute or 0) > (t1.hour, t1.minute or 0)
+    ):
         return Interval(t_from=t1, t_to=Time(hour=t2.hour + 12, minute=t2.minute))
     else:
         return Interval(t_from=t1, t_to=t2)
